@@ -12,6 +12,19 @@ Tie to the code: every recorded transition of the real samplers -- every
 proposal point, every accept AND every reject branch -- is replayed through
 Model/Samplers.v inside Coq with the same draws.
 
+Hamiltonian sampler, mass settings (Properties/C01Mass.v, Model/HmcMass.v): the accept
+test exp(H0 - H) is the Metropolis-Hastings probability for the momentum actually drawn
+iff the factor used to draw momenta and the inverse mass of the kinetic energy describe
+the same mass (L^T inv_mass L = I, any n: C01_hmc_momentum_law); `check_hmc_mass` checks
+exactly that on the pre-state of EVERY recorded HMC transition (constructor masses of all
+three classes, full random SPD matrices, and the mass in force after the chain's own
+estimate_mass).
+
+Input forms (lib/c01forms.py): every sampler is also driven with its numeric arguments
+(start, widths, bounds, walker positions, inverse mass) given as lists / tuples of Python
+floats or ints and as int64 / int32 / float32 arrays -- the model is dtype-free, so a
+sampler that keeps computing in the caller's dtype (truncated proposals) disagrees with it.
+
 Not proved: the ergodic limit itself, P(U<p)=p, the stretch-move Jacobian,
 HMC detailed balance in the continuum, effect of on-line adaptation.
 """
@@ -26,6 +39,7 @@ import numpy as np
 from lib import common as C
 from lib import samplers as S
 from lib import sampler_cases as SC
+from lib import c01forms as CF
 
 PROP = "C01"
 THEOREMS = ["C01_mh_detailed_balance", "C01_mh_stationary", "C01_retry_kernel_stationary",
@@ -36,6 +50,18 @@ THEOREMS = ["C01_mh_detailed_balance", "C01_mh_stationary", "C01_retry_kernel_st
             "C01_reflect_proposal_reversible", "C01_abs_proposal_reversible"]
 ACCEPT_THEOREMS = ["AcceptBounds_exp_lo", "AcceptBounds_exp_hi", "AcceptBounds_decide_accept",
                    "AcceptBounds_decide_accept_any"]
+
+MASS_THEOREMS = ["C01_hmc_momentum_law", "C01_hmc_momentum_law_full", "C01_hmc_start_energy",
+                 "C01_hmc_mass_ok_exact", "C01_hmc_transposed_factor_refuted"]
+# L^T inv_mass L = I on the doubles of the live mass object: rounding of cholesky / solve_triangular
+# is ~1e-16 * condition number (configurations are kept below 1e6); a wrong factor is off by O(0.1)
+MASS_TOL = F(1, 10 ** 6)
+
+ADAPT_THEOREMS = ["Adapt_factor_range", "Adapt_width_positive", "Adapt_direction",
+                  "Adapt_check_interval", "Adapt_band_is_two_sigma"]
+OBLIQUE_THEOREMS = ["C01_reflect_preimage", "C01_reflect_preimage_conv", "C01_pca_oblique_irreversible",
+                    "C01_ensemble_oblique_irreversible", "C01_ensemble_no_return", "C01_axis_fold_reversible",
+                    "C01_axis_fold_reversible_vec"]
 
 KEY_RETRY = "C01/retry-until-accept"
 KEY_REFLECT_PCA = "C01/reflected-oblique-proposal/PcaChain"
@@ -64,12 +90,19 @@ def branch_stats(rep, cfg, recs):
 
 
 # ------------------------------------------------------------------ statistical oracle [R]
-def stat_oracle(kind, T, seed, n_steps=6000):
+INT_WALKERS = [[1, -2], [2, -1], [0, -3], [1, -1], [2, -3], [0, -2], [3, -2], [1, -4]]
+
+
+def stat_oracle(kind, T, seed, n_steps=6000, form=None, inverse_mass=None):
     """Long seeded run of the REAL sampler on a Gaussian target; returns a list of
     gross failures of `samples follow exp(logp/T)` (used only to look for a
     concrete failing input after a correspondence has broken, and as a labelled
     test in the thorough tier).  Tolerances are wide (known finding D3 biases the
-    variance by up to ~15%)."""
+    variance by up to ~15%).
+
+    form: the form in which start / widths / walker positions are handed over (one of
+    sampler_cases.INPUT_FORMS; integer forms start at the integer point (1, -2)).
+    inverse_mass: HamiltonianChain only, a full inverse-mass matrix."""
     from inference.mcmc.gibbs import GibbsChain, MetropolisChain
     from inference.mcmc.pca import PcaChain
     from inference.mcmc.hmc import HamiltonianChain
@@ -84,19 +117,24 @@ def stat_oracle(kind, T, seed, n_steps=6000):
         return -(np.asarray(x) - mean) / sd ** 2
 
     rng = np.random.default_rng(seed)
-    start = mean + 0.3
+    integral = form in SC.INTEGER_FORMS
+    start = SC.as_form(mean + (0.3 if form is None else 0.0 if integral else 0.25), form)
     with S.quiet(), warnings.catch_warnings():
         warnings.simplefilter("ignore")
         if kind in ("gibbs", "metro", "pca"):
             cls = {"gibbs": GibbsChain, "metro": MetropolisChain, "pca": PcaChain}[kind]
-            ch = cls(posterior=logp, start=start, widths=sd * math.sqrt(T), temperature=T, display_progress=False)
+            widths = sd * math.sqrt(T)
+            if form is not None:
+                widths = SC.as_form([1.0, 1.0] if integral else [1.0, 0.5], form)
+            ch = cls(posterior=logp, start=start, widths=widths, temperature=T, display_progress=False)
             S.attach_rng(ch, rng)
             for _ in range(n_steps):
                 ch.take_step()
             x = ch.get_sample(burn=n_steps // 5)
         elif kind == "hmc":
+            im = None if inverse_mass is None else np.array(inverse_mass, dtype=float)
             ch = HamiltonianChain(posterior=logp, start=start, grad=grad, epsilon=0.2, temperature=T,
-                                  display_progress=False)
+                                  inverse_mass=im, display_progress=False)
             ch.rng = rng
             ch.steps = 10
             for _ in range(n_steps // 3):
@@ -105,10 +143,13 @@ def stat_oracle(kind, T, seed, n_steps=6000):
         else:
             T = 1.0
             sp = mean + rng.normal(size=(8, 2)) * sd
+            if form is not None:
+                sp = SC.as_form(INT_WALKERS if integral else np.round(sp * 64) / 64, form, array_only=True)
             ch = EnsembleSampler(posterior=logp, starting_positions=sp, display_progress=False)
             ch.rng = rng
             ch.advance(n_steps // 4)
             x = ch.get_sample(burn=8 * (n_steps // 20))
+    x = np.asarray(x, dtype=float)
     m, v = x.mean(axis=0), x.var(axis=0)
     want_v = sd ** 2 * T
     bad = []
@@ -116,9 +157,26 @@ def stat_oracle(kind, T, seed, n_steps=6000):
         bad.append(f"chain mean {m.tolist()} vs target mean {mean.tolist()}")
     if (abs(v / want_v - 1) > 0.3).any():
         bad.append(f"chain variance {v.tolist()} vs target variance {want_v.tolist()} (T={T})")
-    return bad, {"sampler": kind, "temperature": T, "numpy_seed": seed, "steps": n_steps,
-                 "target": "N([1,-2], diag([1,0.25]))^(1/T)", "observed_mean": m.tolist(),
-                 "observed_variance": v.tolist()}
+    # the target has a density: every stored state is a fresh accepted proposal, so coordinate
+    # values (almost surely) never repeat
+    distinct = min(int(np.unique(x[:, i]).size) for i in range(x.shape[1]))
+    if distinct < 0.5 * x.shape[0]:
+        bad.append(f"only {distinct} distinct values among {x.shape[0]} samples of one parameter "
+                   "(a continuous posterior cannot give that)")
+    info = {"sampler": kind, "temperature": T, "numpy_seed": seed, "steps": n_steps,
+            "target": "N([1,-2], diag([1,0.25]))^(1/T)", "observed_mean": m.tolist(),
+            "observed_variance": v.tolist(), "distinct_values_min": distinct, "samples": int(x.shape[0])}
+    if form is not None:
+        info["input_form"] = form
+        info["start"] = repr(start) if kind != "ensemble" else repr(sp)
+    if inverse_mass is not None:
+        info["inverse_mass"] = np.asarray(inverse_mass, dtype=float).tolist()
+    return bad, info
+
+
+FORM_WORDS = {"flist": "a list of Python floats", "ftuple": "a tuple of Python floats",
+              "ilist": "a list of Python ints", "ituple": "a tuple of Python ints",
+              "i64": "an int64 array", "i32": "an int32 array", "f32": "a float32 array", "f64": "a float64 array"}
 
 
 def ensemble_support_oracle(alpha):
@@ -231,20 +289,39 @@ def ensemble_reflect_finding():
     return None
 
 
+def terms_of(cfg, recs):
+    """Coq terms of recorded transitions; Hamiltonian transitions carry the mass-consistency guard."""
+    if cfg["kind"] == "hmc":
+        qp = S.coq_qpost(cfg["a"], cfg["m"], cfg["c"])
+        return [S.coq_hmc_case(rc, qp, mass_tol=MASS_TOL) for rc in recs]
+    return SC.coq_terms(cfg, recs)
+
+
+def category(cfg):
+    if cfg.get("form"):
+        return "form"
+    if cfg["kind"] == "hmc" and (cfg.get("mass_history") or cfg.get("mass_kind") in ("matrix", "full")):
+        return "mass"
+    return "base"
+
+
 # ------------------------------------------------------------------ main
 def run(rep: C.Report, tier: str) -> int:
     r = C.rng_for(PROP, "cases")
     C.clean_gen(PROP)
     info = C.prove_and_audit(rep, PROP, THEOREMS)
+    # supplementary theorem audits (Print Assumptions): independent coqc processes, run in the
+    # background while the transitions are recorded and replayed; collected below, same obligations
+    from concurrent.futures import ThreadPoolExecutor
+    side = []
     if info is not None:
-        try:
-            a2 = C.coq_audit(PROP + "_accept", ACCEPT_THEOREMS, "IT.Properties.AcceptBounds")
-            rep.obligation(True, len(ACCEPT_THEOREMS))
-            rep.coverage["accept_bounds_audit"] = a2
-        except C.ProofFailure as e:
-            rep.obligation(False, len(ACCEPT_THEOREMS))
-            rep.violation("C01/proof", f"proof obligation no longer checks: {e.what}",
-                          {"theorem_or_correspondence": e.what, "log": e.log[-1000:]}, False)
+        side += [("accept_bounds_audit", PROP + "_accept", ACCEPT_THEOREMS, "IT.Properties.AcceptBounds"),
+                 ("hmc_mass_audit", PROP + "_mass", MASS_THEOREMS, "IT.Properties.C01Mass")]
+    side += [("adaptation_audit", PROP + "_adapt", ADAPT_THEOREMS, "IT.Properties.Adaptation"),
+             # reflected oblique proposals are irreversible (known finding D4)
+             ("oblique_audit", "C01_oblique", OBLIQUE_THEOREMS, "IT.Properties.C01Oblique")]
+    audit_pool = ThreadPoolExecutor(max_workers=len(side))
+    audit_futs = [(key, ths, audit_pool.submit(C.coq_audit, name, ths, mod)) for key, name, ths, mod in side]
 
     per_kind = 10 if tier == "quick" else 60
     nsteps = 8 if tier == "quick" else 14
@@ -267,24 +344,111 @@ def run(rep: C.Report, tier: str) -> int:
             rep.case((SC.describe(cfg),), nontrivial=True)
             if branch_stats(rep, cfg, recs):
                 retry_seen.setdefault(kind, SC.describe(cfg))
-            ts = SC.coq_terms(cfg, recs)
+            ts = terms_of(cfg, recs)
             terms += ts
             owners += [(ci, k) for k in range(len(ts))]
             rep.count("transitions", len(ts))
             rep.count("posterior_evaluations", len(post.evals))
+            if kind == "hmc":
+                rep.count("hmc_mass=" + cfg.get("mass_kind", "none") + ("" if cfg["n"] > 1 else "(n=1)"))
             if len(rep.samples) < 3:
                 rc = recs[0]
                 rep.sample({"sampler": kind, "config": SC.describe(cfg),
                             "first_transition": {"tape": [str(t) for t in rc.tape],
                                                  "evaluations": [[[str(v) for v in p], str(q)] for p, q in rc.events]}})
 
+    # ---- input forms: every sampler with its numeric arguments as lists / tuples of Python floats
+    # or ints, int64 / int32 / float32 arrays (every form for every sampler in both tiers)
+    rf = C.rng_for(PROP, "forms")
+    all_forms = [f for f in SC.INPUT_FORMS if f != "f64"]
+    for kind in SC.SAMPLERS:
+        order = all_forms[:]
+        rf.shuffle(order)
+        for i in range(len(order) if tier == "quick" else 4 * len(order)):
+            try:
+                cfg = CF.with_forms(SC.make_config(rf, kind), rf, order[i % len(order)])
+            except Exception as e:      # the generator itself must not be able to hide a class
+                rep.violation("C01/exception", f"{kind}: input-form generator failed: {e!r}", {}, False)
+                continue
+            cfgs.append(cfg)
+            ci = len(cfgs) - 1
+            rep.count("input_form=" + cfg["form"])
+            rep.count("sampler=" + kind)
+            try:
+                with warnings.catch_warnings():
+                    warnings.simplefilter("ignore")
+                    ch, post, rng, fn, recs = SC.record(cfg, (4 if tier == "quick" else 8) if kind != "ensemble" else 2)
+            except Exception as e:
+                rep.violation(f"C01/input-form/{kind}", f"{kind}: the sampler failed on a valid configuration whose "
+                              f"arguments are given as {FORM_WORDS[cfg['form']]}: {e!r}", {"case": SC.describe(cfg)}, True)
+                continue
+            rep.case(("form", SC.describe(cfg)), nontrivial=True)
+            if branch_stats(rep, cfg, recs):
+                retry_seen.setdefault(kind, SC.describe(cfg))
+            ts = terms_of(cfg, recs)
+            terms += ts
+            owners += [(ci, k) for k in range(len(ts))]
+            rep.count("transitions", len(ts))
+            rep.count("transitions_with_non_default_input_form", len(ts))
+
+    # ---- Hamiltonian sampler with a full (non-diagonal) mass matrix: given to the constructor, or the
+    # chain's own estimate after some steps (history: the mass in force is not the one of construction)
+    rm = C.rng_for(PROP, "mass")
+    histories = ["given", "estimate_full", "given", "estimate_full", "estimate_diag", "given"]
+    for i in range(6 if tier == "quick" else 36):
+        base = SC.make_config(rm, "hmc")
+        while base["n"] < 2:
+            base = SC.make_config(rm, "hmc")
+        cfg = CF.with_full_mass(base, rm, histories[i % len(histories)])
+        cfgs.append(cfg)
+        ci = len(cfgs) - 1
+        rep.count("sampler=hmc")
+        rep.count("hmc_mass_history=" + cfg["mass_history"])
+        try:
+            with warnings.catch_warnings():
+                warnings.simplefilter("ignore")
+                ch, post, rng, fn = SC.build(cfg)
+                recs = []
+                if cfg["mass_history"] != "given":
+                    recs += S.record_hmc(ch, post, rng, cfg["warmup"])
+                    why = CF.apply_mass_history(ch, cfg)
+                    if why:
+                        rep.count("estimate_mass_not_usable: " + why)
+                if cfg["mass_history"] == "given" or not why:
+                    recs += S.record_hmc(ch, post, rng, 5 if tier == "quick" else 8)
+                    rep.count("hmc_full_mass_chains")
+        except Exception as e:
+            rep.violation("C01/exception", f"hmc with a full mass matrix ({cfg['mass_history']}): the sampler failed on a "
+                          f"valid configuration: {e!r}", {"case": SC.describe(cfg)}, True)
+            continue
+        rep.case(("mass", SC.describe(cfg)), nontrivial=True)
+        branch_stats(rep, cfg, recs)
+        ts = terms_of(cfg, recs)
+        terms += ts
+        owners += [(ci, k) for k in range(len(ts))]
+        rep.count("transitions", len(ts))
+        rep.count("transitions_with_mass_check", len(ts))
+        if tier == "thorough":      # [R] the accept probability itself, on the real chain
+            try:
+                badp = CF.hmc_mh_probability_failures(cfg)
+            except Exception as e:
+                badp = [{"exception": repr(e)}]
+            rep.count("hmc_accept_probability_runs[R]")
+            if badp:
+                rep.violation("C01/hmc-accept-probability", "hmc: the accept probability of a trajectory is not the "
+                              "Metropolis-Hastings probability for the momentum actually drawn",
+                              {"case": dict(badp[0], config=SC.describe(cfg))}, True)
+
     # chains run under parallel tempering: real coordinator + real worker loop (in one
     # process), exchanges accepted, then the next transitions of every chain are recorded
     from lib import pt_inproc
     from lib.scripted import ScriptedRNG
     for kind in ("gibbs", "pca", "hmc"):
-        for _ in range(2 if tier == "quick" else 8):
+        for g in range(2 if tier == "quick" else 8):
             cfg = SC.make_config(r, kind)
+            if g % 2 == 1:          # every other group is started from arguments in a non-default form
+                cfg = CF.with_forms(cfg, rf)
+                rep.count("parallel_tempering_groups_with_input_form=" + cfg["form"])
             try:
                 with warnings.catch_warnings():
                     warnings.simplefilter("ignore")
@@ -305,7 +469,7 @@ def run(rep: C.Report, tier: str) -> int:
                             else:
                                 recs = S.record_hmc(ch, post, rng, 1)
                             cfgs.append(c2)
-                            ts = SC.coq_terms(c2, recs)
+                            ts = terms_of(c2, recs)
                             terms += ts
                             owners += [(len(cfgs) - 1, 0)] * len(ts)
                     rep.count("parallel_tempering_groups")
@@ -317,26 +481,22 @@ def run(rep: C.Report, tier: str) -> int:
     # on-line tuning of widths / step size (Model/Adaptation.v): bookkeeping and outcome exactly,
     # applied factors by interval goals
     from lib import adaptation
-    try:
-        a3 = C.coq_audit(PROP + "_adapt", ["Adapt_factor_range", "Adapt_width_positive", "Adapt_direction",
-                                           "Adapt_check_interval", "Adapt_band_is_two_sigma"], "IT.Properties.Adaptation")
-        rep.obligation(True, 5)
-        rep.coverage["adaptation_audit"] = a3
-    except C.ProofFailure as e:
-        rep.obligation(False, 5)
-        rep.violation("C01/proof", f"proof obligation no longer checks: {e.what}",
-                      {"theorem_or_correspondence": e.what, "log": e.log[-1000:]}, False)
     adaptation.run(rep, PROP, C.rng_for(PROP, "adaptation"), tier)
-    try:      # supplementary theorems (reflected oblique proposals are irreversible (known finding D4))
-        _a = C.coq_audit("C01_oblique", ['C01_reflect_preimage', 'C01_reflect_preimage_conv', 'C01_pca_oblique_irreversible', 'C01_ensemble_oblique_irreversible', 'C01_ensemble_no_return', 'C01_axis_fold_reversible', 'C01_axis_fold_reversible_vec'], "IT.Properties.C01Oblique")
-        rep.obligation(True, 7)
-        rep.coverage["oblique_audit"] = _a
-    except C.ProofFailure as _e:
-        rep.obligation(False, 7)
-        rep.violation("C01/proof", f"proof obligation no longer checks: {_e.what}",
-                      {"theorem_or_correspondence": _e.what, "log": _e.log[-1000:]}, False)
-
-    codes, broken = S.run_code_cases(PROP, "trace", terms)
+    # deal the transitions round-robin over the case files, so that the expensive kinds (ensemble
+    # iterations, Hamiltonian trajectories with non-dyadic estimated masses) are spread evenly
+    n_files = max(1, (len(terms) + 59) // 60)
+    deal = sorted(range(len(terms)), key=lambda i: (i % n_files, i))
+    terms, owners = [terms[i] for i in deal], [owners[i] for i in deal]
+    codes, broken = S.run_code_cases(PROP, "trace", terms, header=S.HEADER_MASS)
+    for key, ths, fut in audit_futs:
+        try:
+            rep.coverage[key] = fut.result()
+            rep.obligation(True, len(ths))
+        except C.ProofFailure as e:
+            rep.obligation(False, len(ths))
+            rep.violation("C01/proof", f"proof obligation no longer checks: {e.what}",
+                          {"theorem_or_correspondence": e.what, "log": e.log[-1000:]}, False)
+    audit_pool.shutdown()
     for b in broken:
         rep.obligation(False)
         rep.violation("C01/correspondence-run", "a generated case file did not evaluate",
@@ -345,15 +505,20 @@ def run(rep: C.Report, tier: str) -> int:
     rep.coverage["traces_validated_against_impl"] = sum(1 for c in codes if c == 0)
     rep.coverage["undecided_transitions"] = sum(1 for c in codes if c == 2)
 
-    bad_kinds = {}
+    # first failing transition per (sampler, input class, input form)
+    bad_groups = {}
     for (ci, k), code in zip(owners, codes):
         if code in (1, 3):
-            bad_kinds.setdefault(cfgs[ci]["kind"], (ci, k))
-    for kind, (ci, k) in bad_kinds.items():
+            cfg = cfgs[ci]
+            bad_groups.setdefault((cfg["kind"], category(cfg), cfg.get("form")), (ci, k))
+    found_for = set()          # (kind, category) for which a concrete failing input has been reported
+    for (kind, cat, form), (ci, k) in bad_groups.items():
+        if (kind, cat) in found_for:
+            continue
         cfg = cfgs[ci]
-        # failing-input search: long seeded runs of the real sampler
+        # failing-input search: the property itself evaluated on the real sampler
         found = False
-        if kind == "ensemble":
+        if kind == "ensemble" and cat != "form":
             try:
                 badz = ensemble_support_oracle(float(cfg["alpha"]))
             except Exception as e:
@@ -362,21 +527,52 @@ def run(rep: C.Report, tier: str) -> int:
                 found = True
                 rep.violation("C01/stretch-support/ensemble", "ensemble: " + "; ".join(badz),
                               {"case": {"alpha": cfg["alpha"], "probe": "stretch factor at the ends of the uniform draw"}}, True)
+        if kind == "hmc" and not found:
+            try:
+                badp = CF.hmc_mh_probability_failures(cfg)
+            except Exception as e:
+                badp = []
+            if badp:
+                found = True
+                w = badp[0]
+                rep.violation("C01/hmc-accept-probability",
+                              f"hmc: a trajectory is accepted with probability {w['accept_probability_used']!r}, but the "
+                              "Metropolis-Hastings probability of that move for the momentum law actually sampled "
+                              f"(momentum = A z, A measured on the mass object) is {w['metropolis_hastings_probability']!r}: "
+                              "the momenta are not drawn from the normal law whose energy the accept test uses",
+                              {"case": dict(w, oracle="hmc_mh_probability", config=SC.describe(cfg))}, True)
         for seed in (() if found else (1, 2)):
             try:
-                bad, info2 = stat_oracle(kind, cfg["T"] if kind != "ensemble" else 1.0, seed)
+                im = cfg.get("inv_mass") if (cat == "mass" and cfg["n"] == 2 and isinstance(cfg.get("inv_mass"), list)) else None
+                bad, info2 = stat_oracle(kind, cfg["T"] if kind != "ensemble" else 1.0, seed, form=form, inverse_mass=im)
             except Exception as e:
-                bad, info2 = [f"the sampler raised {e!r}"], {"sampler": kind}
+                bad, info2 = [f"the sampler raised {e!r}"], {"sampler": kind, "input_form": form}
             if bad:
                 found = True
-                rep.violation(f"C01/distribution/{kind}", f"{kind}: " + "; ".join(bad), {"case": info2}, True)
+                if form:
+                    rep.violation(f"C01/input-form/{kind}", f"{kind} with its start given as {FORM_WORDS[form]}: " + "; ".join(bad),
+                                  {"case": info2}, True)
+                else:
+                    rep.violation(f"C01/distribution/{kind}", f"{kind}: " + "; ".join(bad), {"case": info2}, True)
                 break
-        if not found:
-            rep.violation(f"C01/correspondence/{kind}",
-                          f"{kind}: transition {k} of the real sampler is not a transition of the model "
-                          "(proposal point, Metropolis decision or tempering differ)",
-                          {"theorem_or_correspondence": f"Model.Samplers check for {kind} (transition {k})",
-                           "case": SC.describe(cfg)}, False)
+        if found:
+            found_for.add((kind, cat))
+    for (kind, cat, form), (ci, k) in bad_groups.items():
+        if (kind, cat) in found_for:
+            continue
+        found_for.add((kind, cat))
+        cfg = cfgs[ci]
+        what = "(proposal point, Metropolis decision or tempering differ)"
+        if cat == "form":
+            what = (f"when its arguments are given as {FORM_WORDS[form]} (the proposal evaluated or the state stored is not "
+                    "the one the draws determine)")
+        elif kind == "hmc":
+            what = ("(the factor the momenta are drawn with does not match the inverse mass of the kinetic energy, "
+                    "or proposal point / Metropolis decision / tempering differ)")
+        rep.violation(f"C01/correspondence/{kind}" + ("/input-form" if cat == "form" else ""),
+                      f"{kind}: transition {k} of the real sampler is not a transition of the model " + what,
+                      {"theorem_or_correspondence": f"Model.Samplers check for {kind} (transition {k})",
+                       "case": SC.describe(cfg)}, False)
 
     # known findings, exhibited on the real code on every run
     for kind, d in sorted(retry_seen.items()):
@@ -401,11 +597,27 @@ def run(rep: C.Report, tier: str) -> int:
                 rep.count("statistical_runs[R]")
                 if bad:
                     rep.violation(f"C01/distribution/{kind}", f"{kind}: " + "; ".join(bad), {"case": info2}, True)
+            for form in ("ilist", "i64", "f32", "ftuple"):
+                try:
+                    bad, info2 = stat_oracle(kind, 1.0, 11, form=form)
+                except Exception as e:
+                    bad, info2 = [f"the sampler raised {e!r}"], {"sampler": kind, "input_form": form}
+                rep.count("statistical_runs[R]")
+                if bad:
+                    rep.violation(f"C01/input-form/{kind}", f"{kind} with its start given as {FORM_WORDS[form]}: "
+                                  + "; ".join(bad), {"case": info2}, True)
+        for im in ([[1.0, 0.4], [0.4, 0.5]], [[2.0, -0.6], [-0.6, 0.25]]):
+            bad, info2 = stat_oracle("hmc", 1.0, 7, inverse_mass=im)
+            rep.count("statistical_runs[R]")
+            if bad:
+                rep.violation("C01/distribution/hmc", "hmc with a full inverse-mass matrix: " + "; ".join(bad),
+                              {"case": info2}, True)
 
     rep.assumptions = [
         "ergodic convergence, P(U<p)=p, the stretch-move Jacobian and HMC detailed balance in the continuum are cited, not proved",
         "adaptation of widths / step size is frozen during recorded transitions",
         "log-density drawn from the rational quadratic family in executions (a Section variable in the theorems)",
+        "mass consistency L^T inv_mass L = I is checked on the doubles of the live mass object to 1e-6 (theorem: exact)",
     ]
     return rep.finish(
         level="proof",
@@ -414,7 +626,9 @@ def run(rep: C.Report, tier: str) -> int:
                                     "FunctionalExtensionality.functional_extensionality_dep, Classical_Prop.classic"],
         rule="random configurations per sampler x recorded transitions with scripted draws (uniform draws spread "
              "over [2^-40, 1-2^-30] so both accept and reject branches occur: see attempts_accepted / "
-             "attempts_rejected); distinct = distinct configuration")
+             "attempts_rejected); plus every non-default input form (list / tuple / int64 / int32 / float32) for every "
+             "sampler and Hamiltonian chains with full mass matrices (given, or estimated by the chain after a warm-up); "
+             "distinct = distinct configuration")
 
 
 def replay(path):
@@ -423,8 +637,13 @@ def replay(path):
     rp = d["replay"]
     c = rp.get("case") or {}
     if "numpy_seed" in c:
-        bad, info = stat_oracle(c["sampler"], c["temperature"], c["numpy_seed"], c["steps"])
+        bad, info = stat_oracle(c["sampler"], c["temperature"], c["numpy_seed"], c["steps"],
+                                form=c.get("input_form"), inverse_mass=c.get("inverse_mass"))
         print(info, bad)
+        return 1 if bad else 0
+    if c.get("oracle") == "hmc_mh_probability":
+        bad = CF.hmc_mh_probability_failures(SC.undescribe(c["config"]))
+        print(bad[:1])
         return 1 if bad else 0
     print("replay names:", rp.get("theorem_or_correspondence") or d.get("what"))
     return 1
